@@ -205,6 +205,13 @@ class MHLHistory:
             all_paths.update(hash_list.renamed_path_with_previous_path(self.get_root_path()))
         for child_history in self.child_histories:
             all_paths.update(child_history.renamed_path_with_previous_path())
+        # a file can be renamed in more than one generation (a -> b, later b -> c):
+        # map every former path to the latest path instead of to the next one only
+        for previous_path in all_paths:
+            visited = {previous_path}
+            while all_paths[previous_path] in all_paths and all_paths[previous_path] not in visited:
+                visited.add(all_paths[previous_path])
+                all_paths[previous_path] = all_paths[all_paths[previous_path]]
         return all_paths
 
     def hash_list_with_file_name(self, file_name) -> Optional[MHLHashList]:
